@@ -217,6 +217,9 @@ static void q_cmp(slot_t *s)
         uint8_t *q = vh_heapdup(p, (size_t) cnt);
         rt = vh_coin(50);
         want = m_ncmp(s->m, n, q, cnt, cnt);
+        /* the operand has cnt bytes, so the only undecided case is a buffer that ends first with everything equal up to there: the sequence
+         * that ends first is the smaller one (the pointer form has no second length that could be clamped instead) */
+        if (want == 2) { want = -1; vh_count("ncmp_with_ptr_buffer_is_a_proper_prefix", 1); }
         snprintf(what, sizeof what, "ncmp_with_ptr[%s](len %ld, %s operand, cnt %ld)", rt ? "class" : "direct", n, KNAME[cls], cnt);
         vh_op("query %s", what);
         got = (int) X_ncmp_with_ptr(rt, o, q, cnt);
